@@ -33,6 +33,10 @@ OtherSubs ==
        \* temporary of the caller (the first call's result) is live
        SubR("stwice", S32, << Par("p", S32) >>, << Return(Bin("+", Call("spost", <<Pp>>), Call("spost", <<Bin("+", Pp, K(10))>>))) >>),
        SubR("sdeep", S32, << Par("p", S32) >>, << Return(Bin("-", Call("stwice", <<Pp>>), Call("snest", <<Bin("+", Pp, K(1))>>))) >>),
+       \* the same operand passed twice to parameters of different types (each argument converted to ITS parameter's type)
+       SubR("sdup", S64, << Par("p", S32), Par("q", S8) >>, << Return(Bin("+", Bin("*", CastE(S64, Pp), K(256)), Qq)) >>),
+       SubR("sdup3", U64, << Par("p", U8), Par("q", S32), Par("r", U16) >>,
+            << Return(Bin("+", Bin("+", Bin("*", CastE(U64, Pp), K(65536)), Bin("*", CastE(U64, CastE(U32, Qq)), K(16777216))), Var("r"))) >>),
        SubR("sdeep2", S32, << Par("q", S32), Par("p", S32) >>, << Return(Bin("+", Call("spost", <<Qq>>), Call("stwice", <<Pp>>))) >>) >>
 Subs == IdSubs \o OtherSubs
 
@@ -43,7 +47,8 @@ P(id, stmts, tags) == [id |-> id, body |-> Prologue \o stmts \o Epilogue, tags |
 C1(f, e) == Call(f, <<e>>)
 Calls == << C1("searly", A), C1("sloc", A), C1("sloop", CastE(U32, A)), C1("snest", X), Call("smax", <<A, X>>),
             Call("snarrow", <<CastE(S64, A), CastE(U16, X)>>), C1("spost", X), C1("clz32", CastE(U32, X)), C1("fbrev", CastE(U32, A)),
-            C1("clo32", CastE(U32, A)), C1("revbit32", CastE(U32, X)), C1("stwice", A), C1("sdeep", X), Call("sdeep2", <<A, X>>) >>
+            C1("clo32", CastE(U32, A)), C1("revbit32", CastE(U32, X)), C1("stwice", A), C1("sdeep", X), Call("sdeep2", <<A, X>>),
+            Call("sdup", <<A, A>>), Call("sdup", <<X, A>>), Call("sdup3", <<X, X, X>>), Call("sdup3", <<A, X, A>>) >>
 NC == Len(Calls)
 
 IdProgs == [i \in 1..64 |->
